@@ -10,7 +10,7 @@ HEADER = ('From Hts Require Import Base.Prim Generated Model.FaultWriter Model.F
 BS = 0xff00
 
 OPNAME = {0: 'Write', 1: 'Flush', 2: 'Wait', 3: 'Close', 4: 'SetBadHeader', 5: 'SetGoodHeader'}
-ROPNAME = {0: 'Read', 1: 'Seek', 2: 'Close'}
+ROPNAME = {0: 'Read', 1: 'Seek', 2: 'Close', 3: 'Recover'}
 
 
 # ------------------------------------------------------------------ cases
@@ -138,6 +138,8 @@ def gen_reader(rng, tier):
                     s.append(S(m, rng.randrange(0, blocks[m] + 1) if blocks[m] else 0))
             s.append(C)
             scripts.append(s)
+        # keep every Seek inside the data blocks of this layout
+        scripts = [[(S(min(op[1], nb - 1), min(op[2], blocks[min(op[1], nb - 1)])) if op[0] == 1 else op) for op in s] for s in scripts]
         for s in scripts:
             nseek = sum(1 for op in s if op[0] == 1)
             for rd in (1, 2):
@@ -155,6 +157,22 @@ def gen_reader(rng, tier):
                     for j in range(min(nseek, 3 if tier != 'quick' else 2)):
                         cases.append(dict(kind='r', rd=rd, cache=cache, blocks=blocks, xm=-1, xoff=0,
                                           trans=0, seekk=j, ops=s, seeker=True))
+    # Seek faults repeated 1..2*rd times (persistent until the seeker recovers, or exactly t
+    # transient failures), then recovery, then Seek + Read: every call must return and the
+    # bytes after recovery must be the right ones.  rd 1..4, without and with a cache.
+    REC = [3]
+    blocks = [40, 50, 60]
+    total = sum(blocks)
+    for rd in (1, 2, 3, 4):
+        for cache in (0, 1):
+            ts = range(1, 2 * rd + 1) if tier != 'quick' else sorted({1, rd - 1 or 1, rd, rd + 1, 2 * rd})
+            for t in ts:
+                ops = [S(2, 0)] * t + [REC, S(2, 0), R(10), S(0, 0), R(total), C]
+                cases.append(dict(kind='r', rd=rd, cache=cache, blocks=blocks, xm=-1, xoff=0, trans=0, seekk=0, seekn=-1, ops=ops, seeker=True))
+                ops = [R(5)] + [S(1, 3)] * t + [REC, S(1, 0), R(60), S(2, 1), R(5), C]
+                cases.append(dict(kind='r', rd=rd, cache=cache, blocks=blocks, xm=-1, xoff=0, trans=0, seekk=0, seekn=-1, ops=ops, seeker=True))
+                ops = [S(2, 0)] * (t + 2) + [R(10), S(1, 0), R(5), C]
+                cases.append(dict(kind='r', rd=rd, cache=cache, blocks=blocks, xm=-1, xoff=0, trans=0, seekk=0, seekn=t, ops=ops, seeker=True))
     return cases
 
 
@@ -234,7 +252,11 @@ def oracle_reader(c, o):
     if o.get('hang', -1) >= 0:
         h = o['hang']
         name = 'NewReader' if h == 0 else ROPNAME[c['ops'][h - 1][0]]
-        return [('reader:hang:' + name, '%s never returns' % name)]
+        # shape of the history: which kind of fault, and how many Seek calls of the API had failed before
+        fault = 'fetch' if c['xm'] >= 0 else ('seek' if c['seekk'] >= 0 else 'none')
+        nfs = sum(1 for op, r in zip(c['ops'], o.get('res') or []) if op[0] == 1 and r.get('c') not in (0, None))
+        return [('reader:hang:%s:after-%s-fault:%d-failed-seeks' % (name, fault, nfs),
+                 '%s never returns (fault kind: %s; %d Seek calls had returned an error before)' % (name, fault, nfs))]
     if o.get('leak', 0) > 0 and o['open']['c'] == 0:
         fails.append(('reader:leak', '%d goroutine(s) of the library remain after Close' % o['leak']))
     pos = 0
@@ -255,7 +277,7 @@ def oracle_reader(c, o):
                     fails.append(('reader:early-eof', 'clean EOF at flat position %d of %d' % (pos, len(flat))))
                     break
         elif op[0] == 1:
-            if r['c'] == 0:
+            if r.get('c') == 0:
                 m = min(op[1], nm - 1)
                 pos = start[m] + op[2]
             else:
@@ -337,7 +359,7 @@ def run(res, rng, tier):
             if c['k'] >= 0 and o.get('wfailed', 0) > 0 or any(op[0] == 4 for op in c['script']):
                 res.nontrivial.add(key)
         else:
-            key = ('r', c['rd'], c['cache'], json.dumps(c['blocks']), c['xm'], c['xoff'], c['trans'], c['seekk'], json.dumps(c['ops']))
+            key = ('r', c['rd'], c['cache'], json.dumps(c['blocks']), c['xm'], c['xoff'], c['trans'], c['seekk'], c.get('seekn', 0), json.dumps(c['ops']))
             res.count('reader/rd=%d/cache=%d/%s' % (c['rd'], c['cache'], 'seekfault' if c['seekk'] >= 0 else ('readfault' if c['xm'] >= 0 else 'nofault')))
             if o.get('fails', 0) > 0 or (c['seekk'] >= 0 and o.get('seeks', 0) > c['seekk']):
                 res.nontrivial.add(key)
@@ -350,7 +372,7 @@ def run(res, rng, tier):
             continue
         if c['kind'] == 'w':
             wterms.append((c, o, writer_term(c, o)))
-        elif c['rd'] == 1 and c['cache'] == 0 and o.get('hang', -1) < 0:
+        elif c['rd'] == 1 and c['cache'] == 0 and o.get('hang', -1) < 0 and c.get('seekn', 0) in (0, 1) and not any(op[0] == 3 for op in c['ops']):
             rterms.append((c, o, reader_term(c, o)))
     terms = [(c, o, 'CW (%s)' % t) for c, o, t in wterms] + [(c, o, 'CR (%s)' % t) for c, o, t in rterms]
     t0 = time.time()
